@@ -1,9 +1,14 @@
 import NpsVerif.Gen.Bridge.view2_ends
+set_option linter.unusedVariables false
 namespace Gen.Bridge
 /-- K3 (integer branch) -/
 theorem col_slice_int_bridge (len start0 cstep idx : Int) (hl : 0 ≤ len) :
     Cur.col_slice_int len start0 cstep idx = Ref.col_slice_int len start0 cstep idx := by
   first
     | rfl
-    | (unfold Cur.col_slice_int Ref.col_slice_int; simp only [view2_ends_bridge]; bridge_arith)
+    | (have he := view2_ends_bridge len start0 cstep
+       unfold Cur.col_slice_int Ref.col_slice_int
+       (simp only [he]) <;> first
+         | rfl
+         | bridge_arith)
 end Gen.Bridge
